@@ -262,8 +262,8 @@ Print Assumptions C04_ber_skip_length_prefix_determined.
 
 (* uper_open_type_skip (what the C does, std = false, and X.691, std = true): the rest is a suffix and
    at least the length determinant is consumed *)
-Theorem C04_uper_open_skip_in_bounds : forall (std : bool) (bs r : list bool),
-  uper_open_skip std bs = Some r -> exists a, bs = a ++ r /\ (8 <= length a)%nat.
+Theorem C04_uper_open_skip_in_bounds : forall (bs r : list bool),
+  uper_open_skip bs = Some r -> exists a, bs = a ++ r /\ (8 <= length a)%nat.
 Proof. exact uper_open_skip_in_bounds. Qed.
 Print Assumptions C04_uper_open_skip_in_bounds.
 
@@ -278,10 +278,15 @@ Theorem C04_oer_skip_is_fetch_length : forall (bs : list Z) (v : Z) (r : list Z)
 Proof. exact oer_skip_is_fetch_length. Qed.
 Print Assumptions C04_oer_skip_is_fetch_length.
 
-Theorem C04_oer_open_skip_in_bounds : forall (std : bool) (bs r : list Z),
-  oer_open_skip std bs = Some r -> exists a, bs = a ++ r /\ (1 <= length a)%nat.
+Theorem C04_oer_open_skip_in_bounds : forall (bs r : list Z),
+  oer_open_skip bs = Some r -> exists a, bs = a ++ r /\ (1 <= length a)%nat.
 Proof. exact oer_open_skip_in_bounds. Qed.
 Print Assumptions C04_oer_open_skip_in_bounds.
+
+Theorem C04_oer_open_type_skip_in_bounds : forall bs v n,
+  oer_open_type_skip_m bs = FOk v n -> (1 <= n <= length bs)%nat.
+Proof. exact oer_open_type_skip_in_bounds. Qed.
+Print Assumptions C04_oer_open_type_skip_in_bounds.
 
 (* xer_skip_unknown: the depth counter never leaves the range its assert demands *)
 Theorem C04_xer_skip_depth : forall (t : xct) (depth r d : Z), 0 < depth -> xer_skip t depth = (r, d) ->
